@@ -143,7 +143,7 @@ CHECKS = {
          "lies in 0..corner value (lower/upper neighbour-count bounds proved from the topology theorem), hence exactly one position class; "
          "a group query contains a vial iff it names that class; 'all' is the union; statistics- and trajectory-table labels are that class; "
          "'side' = 'edge' on flat/hexagonal. Tied to the code by exact comparison of getVialGroup masks (all groups + random combinations), "
-         "both tables' labels, Snowfall's isin filter and recording-by-group for all shapes in the box, plus a direct oracle.",
+         "both tables' labels, the Snowfall table's labels, Snowfall's group filter (accessor values matched vial by vial) and recording-by-group for all shapes in the box, plus a direct oracle.",
     ref="6 C16", technique="Rocq proof (counting lemmas + finite case analysis) + exhaustive-small correspondence by vm_compute",
     note=TB % "c16" + "pandas .loc/isin/melt semantics modelled by `relabel`/`filter_vials`; Snowfall run sequentially with Nrep=2."),
  "C17": dict(
